@@ -437,9 +437,20 @@ impl<T: Elem> MVec<T> {
     pub fn is_empty(&self) -> bool {
         self.len == 0
     }
-    pub fn reserve_exact(&mut self, _additional: usize) {}
-    pub fn reserve(&mut self, _additional: usize) {}
-    pub fn with_capacity(_n: usize) -> Self {
+    /// std `Vec` panics with "capacity overflow" when the requested capacity exceeds
+    /// `isize::MAX` bytes; the model keeps that panic (requests for less are no-ops).
+    fn check_capacity(n: usize) {
+        let elem = std::mem::size_of::<T>().max(1);
+        assert!(n <= (isize::MAX as usize) / elem, "capacity overflow (Vec::reserve/with_capacity beyond isize::MAX bytes)");
+    }
+    pub fn reserve_exact(&mut self, additional: usize) {
+        Self::check_capacity(additional);
+    }
+    pub fn reserve(&mut self, additional: usize) {
+        Self::check_capacity(additional);
+    }
+    pub fn with_capacity(n: usize) -> Self {
+        Self::check_capacity(n);
         Self::new()
     }
     pub fn push(&mut self, v: T) {
